@@ -97,3 +97,47 @@ fn(F + '.utils:push_tokens', props=P,
                             'implies(largest_index == -1, forall(0, _i0, lambda i: not is_field(tokens[i])))',
                             'implies(largest_index != -1, exists(0, _i0, lambda i: is_field(tokens[i])))',
                             'value_ok(tokens)']}})
+
+# ---------------------------------------------------------------------------------------
+# indent-based formats: level bookkeeping per node (C15)
+# ---------------------------------------------------------------------------------------
+IF = F + '.indent_format'
+cls(IF + ':IndentWalkState', bases=['WalkState'], fields={'options': 'map', 'after_head': 'bool'})
+
+OUT_MOD = ['state.out._value[*]', 'state.out.offset', 'state.out.column', 'state.out.line']
+KEEP = ['os_ok(state.out)', 'state.out.level == old(state.out.level)', 'state.out is old(state.out)']
+
+# helpers that only read the node and push text: trusted here (frame and "level unchanged" assumed)
+fn(IF + ':collect_attributes', props=['C15'], trusted=True,
+   params={'node': 'any'}, returns='tuple[any,any]', requires=[], ensures=[], modifies=[], allocates=True)
+fn(IF + ':should_format', props=['C15'], trusted=True,
+   params={'node': 'any', 'index': 'any', 'items': 'any', 'state': 'any'}, returns='bool',
+   requires=[], ensures=[], modifies=[])
+for _f in ('push_primary_attributes', 'push_secondary_attributes'):
+    fn('%s:%s' % (IF, _f), props=['C15'], trusted=True,
+       params={'attrs': 'any', 'state': 'IndentWalkState'}, returns='none',
+       requires=['os_ok(state.out)'], ensures=KEEP, modifies=OUT_MOD + ['state.field'], allocates=True,
+       note='attribute rendering (regex, comprehension, option lookups): text only, level untouched')
+fn(IF + ':push_value', props=['C15'], trusted=True,
+   params={'node': 'any', 'state': 'IndentWalkState'}, returns='none',
+   requires=['os_ok(state.out)'], ensures=KEEP, modifies=OUT_MOD + ['state.field', 'state.after_head', 'state.out.level'],
+   allocates=True,
+   note='multi-line layout raises the level by one around the text lines and restores it (bounded clause '
+        'text-only-self-closing-levels / head-forms check it on the real code)')
+
+fn(IF + ':element', props=['C15'],
+   params={'node': 'AbbreviationNode', 'index': 'any', 'items': 'any', 'state': 'IndentWalkState', 'walk_next': 'fn'},
+   returns='none',
+   requires=['os_ok(state.out)', "has(state.options, 'selfClose')"],
+   # the level is raised by one for a nested node (not for top-level ones) and restored on EVERY path:
+   # a level leak after a self-closing or text-only node is exactly a failure of this postcondition
+   ensures=KEEP,
+   modifies=OUT_MOD + ['state.field', 'state.after_head', 'state.out.level'], allocates=True,
+   # children are walked through the callback: it writes output and leaves the level as it found it
+   # (that is this very postcondition, established for the recursive invocation by format.walk)
+   callback={'param': 'walk_next', 'args': ['child', 'cindex', 'citems'], 'requires': ['os_ok(state.out)'],
+             'modifies': OUT_MOD + ['state.field', 'state.after_head', 'state.out.level'],
+             'ensures': ['os_ok(state.out)', 'state.out.level == old(state.out.level)'], 'returns': 'any'},
+   loops={0: {'anchor': 'for (index, child) in enumerate(node.children)',
+              'invariant': ['os_ok(state.out)', 'state.out is out', 'out.level == old(state.out.level) + level',
+                            'state.out is old(state.out)']}})
